@@ -645,3 +645,91 @@ def o5(h):
     h.bounds('n=2 unknowns; cubic energy family with all coefficients, states and both parameter sets symbolic (slots 0,1,2,4 change)')
     h.assume_note('hybrid: the jitted closures of the real Objective are re-traced per call and interpreted on proxies (jit caching itself is not modelled)')
     px.run_px(h, 'objective', make_objective_follows_p_harness(), cap=60)
+
+
+# ------------------------------------------------------------------------------------------ O6: the settings constructors
+def make_settings_harness():
+    """get_settings(**kw) must put every keyword into the field of the same name (the solver reads the fields by name), and
+    settings_with_new_tol must preserve every field except tol and cg_tol"""
+    def fn(ex):
+        mod = px.load_module(REL)
+        S = mod.Settings
+        names = list(S._fields)
+        bools = ('check_stability', 'use_preconditioned_inner_product_for_cg', 'use_incremental_objective', 'debug_info')
+        ints = ('max_trust_iters', 'max_cg_iters', 'max_cumulative_cg_iters', 'over_iters')
+        vals = {}
+        for nm in names:
+            vals[nm] = ex.bool('kw_' + nm) if nm in bools else (ex.int('kw_' + nm) if nm in ints else ex.real('kw_' + nm))
+        U = px.unwrap
+        st = mod.get_settings(**vals)
+        for nm in names:
+            ex.goal('get_settings_field_is_its_keyword[%s]' % nm, Eq(U(getattr(st, nm)), U(vals[nm])) if nm not in bools
+                    else Holds(U(getattr(st, nm)) == U(vals[nm])))
+        # defaults: every omitted keyword keeps its documented default; cg_tol defaults to 0.2*tol
+        d = mod.get_settings(tol=vals['tol'])
+        ex.goal('default_cg_tol_is_a_fifth_of_tol', Eq(U(d.cg_tol), U(0.2 * vals['tol'])))
+        ex.goal('default_mode_is_objective_value_with_euclidean_inner_product',
+                Holds(d.use_incremental_objective is False and d.use_preconditioned_inner_product_for_cg is False and d.check_stability is False))
+        one = mod.get_settings(use_preconditioned_inner_product_for_cg=True)
+        ex.goal('preconditioned_option_alone_does_not_switch_the_objective_mode',
+                Holds(one.use_preconditioned_inner_product_for_cg is True and one.use_incremental_objective is False))
+        two = mod.get_settings(use_incremental_objective=True)
+        ex.goal('incremental_option_alone_does_not_switch_the_inner_product',
+                Holds(two.use_incremental_objective is True and two.use_preconditioned_inner_product_for_cg is False))
+        newtol = ex.real('newTol')
+        st2 = mod.settings_with_new_tol(st, newtol)
+        for nm in names:
+            if nm == 'tol':
+                ex.goal('settings_with_new_tol[tol]', Eq(U(st2.tol), U(newtol)))
+            elif nm == 'cg_tol':
+                ex.goal('settings_with_new_tol[cg_tol]', Eq(U(st2.cg_tol), U(0.2 * newtol)))
+            else:
+                ex.goal('settings_with_new_tol_preserves[%s]' % nm, Eq(U(getattr(st2, nm)), U(vals[nm])) if nm not in bools
+                        else Holds(U(getattr(st2, nm)) == U(vals[nm])))
+    return fn
+
+
+@obligation(P, 'O6.settings_constructors', cap=300)
+def o6(h):
+    """get_settings / settings_with_new_tol wire every admissible solver setting into the field the solver reads"""
+    h.encoded('optimism.EquationSolver:get_settings', 'optimism.EquationSolver:settings_with_new_tol', 'optimism.EquationSolver:Settings')
+    h.bounds('every keyword symbolic (reals, integers, Booleans)')
+    px.run_px(h, 'settings', make_settings_harness(), cap=20)
+
+
+def make_generic_settings_harness(relpath, with_new_tol=None):
+    """every keyword of <module>.get_settings lands in the Settings field of the same name (generic over the module's own
+    signature and namedtuple, read from the current source)"""
+    import inspect
+
+    def fn(ex):
+        mod = px.load_module(relpath)
+        S = mod.Settings
+        sig = inspect.signature(mod.get_settings)
+        vals = {}
+        for nm, par in sig.parameters.items():
+            dflt = par.default
+            if isinstance(dflt, bool):
+                vals[nm] = ex.bool('kw_' + nm)
+            elif isinstance(dflt, int):
+                vals[nm] = ex.int('kw_' + nm)
+            else:
+                vals[nm] = ex.real('kw_' + nm)
+        U = px.unwrap
+        st = mod.get_settings(**vals)
+        for nm in S._fields:
+            if nm in vals:
+                got, want = getattr(st, nm), vals[nm]
+                ex.goal('get_settings_field_is_its_keyword[%s]' % nm, Holds(U(got) == U(want)) if isinstance(want, px.SymBool) or isinstance(want, bool)
+                        else Eq(U(got), U(want)))
+        if with_new_tol:
+            newtol = ex.real('newTol')
+            st2 = getattr(mod, with_new_tol)(st, newtol)
+            changed = {f for f in S._fields if 'tol' in f and f.endswith('tol')}
+            for nm in S._fields:
+                if nm == 'tol':
+                    ex.goal('settings_with_new_tol[tol]', Eq(U(st2.tol), U(newtol)))
+                elif nm in vals and nm not in changed:
+                    got, want = getattr(st2, nm), vals[nm]
+                    ex.goal('settings_with_new_tol_preserves[%s]' % nm, Holds(U(got) == U(want)) if isinstance(want, (px.SymBool, bool)) else Eq(U(got), U(want)))
+    return fn
